@@ -262,6 +262,7 @@ class SyncInterpreter(BaseInterpreter[TContext, TEvent]):
         self.status = "stopped"
         for actor_id, actor in list(self._actors.items()):
             try:
+                self._unregister_from_system(actor)
                 actor.stop()
             finally:
                 self._actors.pop(actor_id, None)
@@ -1171,6 +1172,7 @@ class SyncInterpreter(BaseInterpreter[TContext, TEvent]):
                 "actor before spawning its replacement.",
                 actor_id,
             )
+            self._unregister_from_system(previous)
             previous.stop()
         child = SyncInterpreter(actor_machine)
         child.parent = self
